@@ -1,0 +1,46 @@
+//go:build verif
+
+package m3
+
+import (
+	stdatomic "sync/atomic"
+
+	m3thrift "github.com/uber-go/tally/v4/m3/thrift/v2"
+)
+
+// VerifHooks are schedule points and observation points used by the external
+// verification harness.
+type VerifHooks struct {
+	// Yield is called between the steps of the enter/close handshake. Sites
+	// ending in ":spin" are called from inside a busy-wait loop.
+	Yield func(site string)
+	// NoteCharged is called by the batching goroutine for every metric it
+	// adds to the open batch, with the size charged for it.
+	NoteCharged func(size int32, m *m3thrift.Metric)
+	// NoteBatch is called by the batching goroutine right before a batch is
+	// handed to the thrift client.
+	NoteBatch func(mets []m3thrift.Metric, commonTags []m3thrift.MetricTag, freeBytes, overheadBytes int32)
+}
+
+var verifHooks stdatomic.Pointer[VerifHooks]
+
+// VerifSetHooks installs (or, with nil, removes) the verification hooks.
+func VerifSetHooks(h *VerifHooks) { verifHooks.Store(h) }
+
+func verifYield(site string) {
+	if h := verifHooks.Load(); h != nil && h.Yield != nil {
+		h.Yield(site)
+	}
+}
+
+func verifNoteCharged(size int32, m *m3thrift.Metric) {
+	if h := verifHooks.Load(); h != nil && h.NoteCharged != nil {
+		h.NoteCharged(size, m)
+	}
+}
+
+func verifNoteBatch(mets []m3thrift.Metric, commonTags []m3thrift.MetricTag, freeBytes, overheadBytes int32) {
+	if h := verifHooks.Load(); h != nil && h.NoteBatch != nil {
+		h.NoteBatch(mets, commonTags, freeBytes, overheadBytes)
+	}
+}
